@@ -579,6 +579,8 @@ def scCs (d : DCfg) : Tk String := do
     let w := emitAll (writeCS d.cfg cs)
     out := out ++ s!" w={stI w.1}:{hexq d w.2}"
     out := out ++ s!" ts=0:{m}:1"
+    let tw := emitAll (writeTS d.cfg ⟨List.replicate m (some cs)⟩)
+    out := out ++ s!" tsw={stI tw.1}:{hexq d tw.2}"
   pure (out ++ " live=0")
 
 def scFw (d : DCfg) : Tk String := do
